@@ -30,7 +30,9 @@ RULE = ('one case per (compound, density route, call form, wavelength): D2O_sld 
         'one-element default; built from a string or a dict; optionally n*formula) + density= / natural_density= '
         'keyword of another value; name= / table= keywords, fractions 0 and 1 as ints; half of the Formula objects '
         'are used once more after the caller assigned them a new density, and every Formula object is compared '
-        'with its state before the calls.  '
+        'with its state before the calls.  Private table: compounds (string, or Formula object built on that table; density by '
+        'keyword or tag) sent through D2O_sld / D2O_match with table=<a private PeriodicTable initialised with mass, density and '
+        'neutron data after the public neutron data was loaded>; judged by the same oracle and against the public-table call.  '
         'distinct = distinct (composition, density route, call form, wavelength) tuples; a case is non-trivial '
         'when the compound has atoms and non-zero density (gap / masked table entries are evaluated, not counted)')
 TECHNIQUE = ('runtime monitoring: reference-model monitor (own isotope substitution at constant cell volume with '
@@ -58,6 +60,9 @@ ASSUMPTIONS = [
     'compound") is the density of that call: it takes precedence over a density the Formula object or the formula '
     'text already carries; the two keywords are never given together; natural_density converts by the ratio of '
     'isotopic to natural mass; D2O_sld / D2O_match leave a Formula object passed in unchanged',
+    'a private core.PeriodicTable given mass.init, density.init and nsf.init serves the same data as the public table: with '
+    'table=<that table> ("passed to formulas.formula when parsing the compound") D2O_sld / D2O_match of a string, or of a '
+    'Formula object built on that table, give the numbers of the public-table call (labile H[1] exchanged all the same)',
 ]
 
 TOL = 1e-9
@@ -108,6 +113,15 @@ def setup(ctx):
     special = [(z, a) for z, a in special
                if (pt.elements[z][a] if a else pt.elements[z]).neutron.b_c is not None]
     _state['pools'] = (bio, anyel, special)
+    # a private table with mass, density and neutron data, set up AFTER the public neutron data was touched
+    if 'private' not in _state:
+        from periodictable import core, mass as mass_mod, density as density_mod
+        pt.elements.H.neutron.b_c, pt.elements.H.mass, pt.elements.H.density
+        T = core.PeriodicTable('c16_private_%d' % ctx.shard)
+        mass_mod.init(T)
+        density_mod.init(T)
+        nsf.init(T)
+        _state['private'] = T
 
 
 def _attach_replace_contract(ctx, reach, formulas):
@@ -211,6 +225,9 @@ def finish(ctx):
     ctx.require('arg.scaled_formula_object', 5, 'n*formula objects not exercised')
     ctx.require('arg.formula_object_density_reassigned', 20, 'no Formula object used again after a new density was assigned')
     ctx.require('density.extreme', 10, 'no very small / very large density')
+    for form in ('string', 'formula'):
+        ctx.require('arg.private_table.' + form, 2, 'table=<private table> with the compound as %s not exercised' % form)
+    ctx.require('private_table.labile.some', 5, 'table=<private table> never met a compound with labile hydrogen')
 
 
 # ------------------------------------------------------------------ model helpers
@@ -462,6 +479,20 @@ def _compound_case(ctx):
     return case
 
 
+def _private_case(ctx):
+    """A compound case for the private table: string, or Formula object built on that table; the density by
+    keyword or by tag; no second density, no other extras."""
+    rng = ctx.rng
+    c = _compound_case(ctx)
+    for name in ('own', 'reassign', 'extra_kw'):
+        c.pop(name, None)
+    c['kind'] = 'private'
+    c['form'] = 'string' if rng.random() < 0.65 else 'formula'
+    d, v = c['grid'][2][1], c['grid'][8][0]
+    c['grid'] = [[1.0, d], [v, d], [1.0, 1.0], [0.0, 1.0]]
+    return c
+
+
 def _add_wavelength(case, rng):
     r = rng.random()
     if r < 0.15:
@@ -526,6 +557,8 @@ def generate(ctx):
         yield 'compound', _compound_case(ctx)
     for _ in range(ctx.scale(100, 400)):
         yield 'molecule', _molecule_case(ctx)
+    for _ in range(ctx.scale(60, 220)):
+        yield 'private', _private_case(ctx)
     for _ in range(ctx.scale(40, 150)):
         yield 'molecule', _sequence_case(ctx)
 
@@ -546,8 +579,9 @@ def _model_density(atoms, value, route):
     return value * _mass(atoms) / _natural_mass(atoms)
 
 
-def _library_compound(case, atoms):
-    """(compound argument, extra keywords) as the case prescribes."""
+def _library_compound(case, atoms, table=None):
+    """(compound argument, extra keywords) as the case prescribes; a Formula object is built on *table*
+    (cases without a second density only) when one is given."""
     import periodictable as pt
     text, route, form, dens = case['text'], case['route'], case['form'], case['density']
     kw = {}
@@ -580,6 +614,8 @@ def _library_compound(case, atoms):
         s = text
         kw[route] = dens
     if form == 'formula':
+        if table is not None:
+            return pt.formula(s, table=table, **kw), {}
         return pt.formula(s, **kw), {}
     return s, kw
 
@@ -819,7 +855,74 @@ def check_molecule(ctx, case):
                      'D2O_match(labile formula of %s, wavelength=%r)' % (what, wl), **feat)
 
 
-CHECKS = {'compound': check_compound, 'molecule': check_molecule}
+def check_private(ctx, case):
+    """table=<private table>: the same oracle as check_compound (the private table serves the same data), and the
+    numbers of the public-table call."""
+    import numpy as np
+    from periodictable import nsf
+    T = _state['private']
+    atoms = _denote(case['parts'])
+    rho = _model_density(atoms, case['density'], case['route'])
+    wlkw = _wl_kw(case)
+    model = Model(atoms, rho, wlkw)
+    comp, kw = _library_compound(case, atoms, table=T)
+    pub, _kw = _library_compound(case, atoms)
+    kw.update(wlkw)
+    kwp = dict(kw, table=T)
+    how = 'string %s' % case['text'] if case['form'] == 'string' else 'Formula object built on that table from %s' % case['text']
+    what = 'D2O_sld(%s, %s=%r, table=<private table>)' % (how, case['route'], case['density'])
+    arg = 'private_table.' + case['form']
+    ctx.count('arg.' + arg)
+    ctx.count('private_table.labile.some' if atoms.get(H1, 0) else 'private_table.labile.zero')
+    if bool(atoms) and bool(rho):
+        ctx.distinct_case(('private', tuple(sorted(atoms.items())), case['route'], case['form'], case['density'],
+                           repr(case.get('wavelength')), case.get('energy')))
+    feat = dict(nl=atoms.get(H1, 0), hasD=HD in atoms, route=case['route'], form=case['form'], arg=arg)
+    seen = []
+
+    def call(v, d):
+        if case.get('int_fractions'):
+            v = int(v) if v in (0, 1) else v
+            d = int(d) if d in (0, 1) else d
+        if case['positional']:
+            r = nsf.D2O_sld(comp, v, d, **dict(kwp))
+        else:
+            r = nsf.D2O_sld(comp, volume_fraction=v, D2O_fraction=d, **dict(kwp))
+        seen.append((v, d, r))
+        return r
+    _check_grid(ctx, call, model, case['grid'], what, **feat)
+    got = nsf.D2O_sld(comp, **dict(kwp))
+    seen.append((None, None, got))
+    want = model.solution(1.0, 0.0)
+    ctx.evaluated(2, 'D2O_sld.defaults')
+    if not (_agree(ctx, got[0], want[0], model.scale[0], 'D2O_sld.real.err_over_scale')
+            and _agree(ctx, got[1], want[1], model.scale[1], 'D2O_sld.imag.err_over_scale')):
+        ctx.violation('%s with default fractions is %r, the natural-H form gives %r' % (what, got[:2], want),
+                      field='D2O_sld.defaults', **feat)
+    # the public table holds the same data: same numbers
+    for v, d, prv in seen:
+        ref = nsf.D2O_sld(pub, **dict(kw)) if v is None else nsf.D2O_sld(pub, v, d, **dict(kw))
+        for j, part in ((0, 'real'), (1, 'imag')):
+            ctx.evaluated(what='private-vs-public.' + part)
+            if not _agree(ctx, prv[j], ref[j], model.scale[j], 'private_vs_public.%s.err_over_scale' % part):
+                ctx.violation('%s: %s SLD at volume fraction %r, D2O fraction %r is %r, the same call with the public table '
+                              'gives %r' % (what, part, v, d, prv[j], ref[j]), field='private-vs-public.' + part,
+                              v=v, d=d, **feat)
+    ds, sld = nsf.D2O_match(comp, **dict(kwp))
+    mwhat = 'D2O_match' + what[len('D2O_sld'):]
+    _check_match(ctx, ds, sld, lambda v, d: nsf.D2O_sld(comp, v, d, **dict(kwp))[0], model, mwhat, **feat)
+    m = model.match()
+    if m is not None:
+        dpub, sldpub = nsf.D2O_match(pub, **dict(kw))
+        big = max(1.0, float(np.max(np.abs(m[0]))))
+        ctx.evaluated(2, 'private-vs-public.match')
+        if not (_agree(ctx, ds, dpub, big, 'private_vs_public.match.err', factor=max(1.0, m[2]))
+                and _agree(ctx, sld, sldpub, model.scale[0] * big, 'private_vs_public.match.err', factor=max(1.0, m[2]))):
+            ctx.violation('%s gives (fraction, SLD) %r, the same call with the public table %r'
+                          % (mwhat, (ds, sld), (dpub, sldpub)), field='private-vs-public.match', **feat)
+
+
+CHECKS = {'compound': check_compound, 'molecule': check_molecule, 'private': check_private}
 
 
 def classify(rec):
